@@ -159,6 +159,7 @@ int main(int argc, char** argv) {
     static std::string propkeep; propkeep = g_prop;
     simmem::g_fatal_ctx.prop = propkeep.c_str();
     std::unordered_set<uint64_t> distinct;
+    FILE* hf = hashf ? fopen(hashf, "wb") : nullptr;   // distinct-case digests, appended as found (survive a fatal run)
     auto t0 = std::chrono::steady_clock::now();
     auto elapsed = [&] { return std::chrono::duration<double>(std::chrono::steady_clock::now() - t0).count(); };
     uint64_t nviol = 0;
@@ -178,7 +179,11 @@ int main(int argc, char** argv) {
       g_cur_plan = nullptr;
       g_stats.runs++; g_stats.ops += out.ops_executed; g_stats.skipped += out.ops_skipped;
       bool nontriv = out.ops_executed >= 1 && out.faults_fired >= 1;
-      if (nontriv) { g_stats.nontrivial++; distinct.insert(mix64(plan_shape_hash(p) ^ mix64(out.outcome_vec))); }
+      if (nontriv) {
+        g_stats.nontrivial++;
+        uint64_t dh = mix64(plan_shape_hash(p) ^ mix64(out.outcome_vec));
+        if (distinct.insert(dh).second && hf) { fwrite(&dh, 8, 1, hf); if ((distinct.size() & 63) == 0) fflush(hf); }
+      }
       for (auto& k : out.known) {
         if (!g_stats.configured.count("known:" + k)) { printf("K {\"prop\":%s,\"run\":%llu,\"sig\":%s}\n", jstr(g_prop).c_str(), (unsigned long long)i, jstr(k).c_str()); fflush(stdout); }
         g_stats.configured["known:" + k]++;
@@ -190,10 +195,7 @@ int main(int argc, char** argv) {
       }
     }
     if (g_status) g_status[0] = ~0ull;
-    if (hashf) {
-      FILE* f = fopen(hashf, "wb");
-      if (f) { for (uint64_t h : distinct) fwrite(&h, 8, 1, f); fclose(f); }
-    }
+    if (hf) fclose(hf);
     print_stats(elapsed(), distinct.size());
     return nviol ? 1 : 0;
   }
